@@ -241,9 +241,13 @@ class Model:
             from .inventory import FUNCTIONS, MODULE_NAMES
         except ImportError:
             return
-        from .inline import MAX_ROUNDS, desugar_match, drop_absorbed_helpers, inline_new_helpers, propagate_new_constants
+        from .inline import MAX_ROUNDS, desugar_match, drop_absorbed_helpers, erase_new_namedtuples, inline_new_helpers, propagate_new_constants
 
         if desugar_match(self):
+            self._reindex()
+
+        self.namedtuples_erased = erase_new_namedtuples(self, MODULE_NAMES)
+        if self.namedtuples_erased:
             self._reindex()
 
         self.constants_substituted = propagate_new_constants(self, MODULE_NAMES)
